@@ -1,10 +1,194 @@
-(* C12 - parallel file wrapper.  Only `exact` wrappers around lemmas of C12/FileProofs.v. *)
+(* C12 - parallel file wrapper: data round-trips and all ranks agree on the outcome.
+   Only `exact` wrappers around lemmas of C12/FileProofs.v.  The statements are about the global sequential model of
+   C12/FileModel.v (configurations A = no MPI and C = MPI without MPI I/O) and about the GENERATED sc_io_error_class.
+   Every statement is for all P (= length of the argument list), all block lengths >= 0 and contents, all element sizes,
+   and - where a fault plan `pl` occurs - for every assignment of failures to stdio calls (rank, function, call number).
+   Vocabulary: w_fail counts the stdio calls that ended with errno <> 0; w_ledger the allocated file contexts; w_open the open
+   FILE*; `wst w c fl op lg` = the file exists with content c, the fault plan is empty, and the three counters have these values. *)
 From Coq Require Import ZArith List Bool.
 From ScV Require Import Base.CInt MPI.Prog Gen.ErrClassC12 C12.FileModel C12.FileProofs.
 Import ListNotations.
 Local Open Scope Z_scope.
 
-(* the generated sc_io_error_class (both configurations) reports success exactly for the error value 0 *)
+(* ---- T1: the generated sc_io_error_class (both configurations) *)
 Theorem C12_error_class_success c e : errclass c e = SUCCESS c <-> e = 0.
 Proof. exact (errclass_success_iff c e). Qed.
 Print Assumptions C12_error_class_success.
+
+Theorem C12_error_class_converts c e : errclass_ret c e = SUCCESS c.
+Proof. exact (errclass_ret_ok c e). Qed.
+Print Assumptions C12_error_class_converts.
+
+(* ---- open: same class on all ranks; SUCCESS iff fopen did not fail; a failed open leaves no context, no stream *)
+Theorem C12_open cfg P g am g' cls : 0 < P -> plan_ok (w_plan (g_w g)) ->
+  g_open cfg P g am = (g', cls) ->
+  agree cls /\ cls <> []
+  /\ ((forall x, In x cls -> x = SUCCESS cfg) <-> w_fail (g_w g') = w_fail (g_w g))
+  /\ ((forall x, In x cls -> x = SUCCESS cfg) ->
+        g_ctx g' = true /\ g_s0 g' <> None /\ w_ledger (g_w g') = w_ledger (g_w g) + P /\ w_open (g_w g') = w_open (g_w g) + 1)
+  /\ (~ (forall x, In x cls -> x = SUCCESS cfg) ->
+        g_ctx g' = false /\ g_s0 g' = None /\ w_ledger (g_w g') = w_ledger (g_w g) /\ w_open (g_w g') = w_open (g_w g)).
+Proof. exact (open_spec cfg P g am g' cls). Qed.
+Print Assumptions C12_open.
+
+(* ---- close: same class on all ranks; SUCCESS iff fclose did not fail; every context is freed *)
+Theorem C12_close cfg P g g' cls : 0 < P -> plan_ok (w_plan (g_w g)) ->
+  g_close cfg P g = Some (g', cls) ->
+  agree cls /\ cls <> []
+  /\ ((forall x, In x cls -> x = SUCCESS cfg) <-> w_fail (g_w g') = w_fail (g_w g))
+  /\ g_ctx g' = false /\ g_s0 g' = None /\ w_ledger (g_w g') = w_ledger (g_w g) - P
+  /\ w_open (g_w g') = w_open (g_w g) - (match g_s0 g with Some _ => 1 | None => 0 end).
+Proof. exact (close_spec cfg P g g' cls). Qed.
+Print Assumptions C12_close.
+
+(* ---- collective read/write of configuration C (token passing): all ranks return the class of one value ... *)
+Theorem C12_coll_agree wr g size args g' rs : g_coll wr g size args = Some (g', rs) ->
+  exists ev, forall r, In r rs -> r_cls r = errclass CfgC ev.
+Proof. exact (coll_agree wr g size args g' rs). Qed.
+Print Assumptions C12_coll_agree.
+
+(* ... and it is SUCCESS iff no stdio call of any rank failed during the operation (the repaired code; reverting the
+   take-over of the error token or the protection of errval on rank 0 makes this statement false) *)
+Theorem C12_coll_success_iff wr g size args g' rs : 0 < size -> plan_ok (w_plan (g_w g)) ->
+  Forall (fun a => 0 <= a_count a) args -> args <> [] ->
+  g_coll wr g size args = Some (g', rs) ->
+  rs <> [] /\ ((forall r, In r rs -> r_cls r = SUCCESS CfgC) <-> w_fail (g_w g') = w_fail (g_w g))
+  /\ w_ledger (g_w g') = w_ledger (g_w g).
+Proof. exact (coll_success_iff wr g size args g' rs). Qed.
+Print Assumptions C12_coll_success_iff.
+
+(* ---- fault-free collective write: the blocks are appended in rank order, ocount = count *)
+Theorem C12_coll_write g c fl op lg s size args :
+  wst (g_w g) c fl op lg -> g_s0 g = Some s -> at_end s c -> args <> [] -> Forall (wf_arg size) args ->
+  exists g', g_coll true g size args = Some (g', map (fun a => mkR (SUCCESS CfgC) (a_count a) []) args)
+             /\ wst (g_w g') (c ++ concat (map a_data args)) fl op lg
+             /\ g_s0 g' = Some (mkS MAppend (len (c ++ concat (map a_data args))))
+             /\ g_ctx g' = g_ctx g.
+Proof. exact (coll_write_nf g c fl op lg s size args). Qed.
+Print Assumptions C12_coll_write.
+
+Theorem C12_coll_writes calls g c fl op lg s size :
+  wst (g_w g) c fl op lg -> g_s0 g = Some s -> at_end s c ->
+  Forall (fun args => args <> [] /\ Forall (wf_arg size) args) calls ->
+  exists g', g_colls g size calls = Some g'
+             /\ wst (g_w g') (c ++ concat (map (fun args => concat (map a_data args)) calls)) fl op lg.
+Proof. exact (coll_writes_nf calls g c fl op lg s size). Qed.
+Print Assumptions C12_coll_writes.
+
+(* ---- fault-free collective read: each rank gets the whole elements found at its offset *)
+Theorem C12_coll_read g c fl op lg s size args :
+  wst (g_w g) c fl op lg -> g_s0 g = Some s -> st_mode s = MRead -> args <> [] ->
+  Forall (fun a => 0 <= a_off a) args ->
+  exists g', g_coll false g size args = Some (g', map (read_res c size) args)
+             /\ wst (g_w g') c fl op lg /\ g_s0 g' = Some (mkS MRead 0) /\ g_ctx g' = g_ctx g.
+Proof. exact (coll_read_nf g c fl op lg s size args). Qed.
+Print Assumptions C12_coll_read.
+
+(* ---- the round trip as a whole (configuration C): open-create, write blocks consecutively, close, open-read, read at
+        the same offsets, close: every call returns SUCCESS on every rank, counts are the block lengths, the data read
+        are the data written, the file is the concatenation in rank order, nothing stays allocated or open *)
+Theorem C12_roundtrip_C P size args node pl :
+  0 < size -> args <> [] -> Forall (wf_arg size) args -> consec 0 args ->
+  (forall q f k, pl q f k = None) -> (node = Absent \/ exists c0, node = File c0) ->
+  exists g,
+    g_scen CfgC P (gstate0 node pl)
+      [OOpen c12_SC_IO_WRITE_CREATE; OColl true size args; OClose;
+       OOpen c12_SC_IO_READ; OColl false size args; OClose]
+    = Some (g, [out_all CfgC P false;
+                map (fun a => enc CfgC (SUCCESS CfgC) (a_count a) false []) args;
+                out_all CfgC P true;
+                out_all CfgC P false;
+                map (fun a => enc CfgC (SUCCESS CfgC) (a_count a) false (a_data a)) args;
+                out_all CfgC P true])
+    /\ wst (g_w g) (concat (map a_data args)) 0 0 0 /\ g_s0 g = None /\ g_ctx g = false.
+Proof. exact (roundtrip_scenario_C P size args node pl). Qed.
+Print Assumptions C12_roundtrip_C.
+
+(* ---- explicit-offset calls (configuration A; rank 0 in C), fault-free: write lands at the offset, the stream position
+        is restored, and what was written at an offset is what a read at that offset finds *)
+Theorem C12_at_write cfg g c fl op lg m p q size a :
+  wst (g_w g) c fl op lg -> g_s0 g = Some (mkS m p) -> m <> MRead -> 0 <= p -> 0 <= a_off a -> 0 < a_count a ->
+  len (a_data a) = size * a_count a ->
+  exists g', g_at cfg true g q size a = (g', mkR (SUCCESS cfg) (a_count a) [])
+    /\ wst (g_w g') (put c (at_pos m c (a_off a)) (a_data a)) fl op lg
+    /\ g_s0 g' = Some (mkS m p) /\ g_ctx g' = g_ctx g.
+Proof. exact (at_write_nf cfg g c fl op lg m p q size a). Qed.
+Print Assumptions C12_at_write.
+
+Theorem C12_at_read cfg g c fl op lg p q size a :
+  wst (g_w g) c fl op lg -> g_s0 g = Some (mkS MRead p) -> 0 <= p -> 0 <= a_off a -> a_count a <> 0 ->
+  exists g', g_at cfg false g q size a =
+               (g', mkR (SUCCESS cfg) (whole c (a_off a) size (a_count a))
+                        (firstn (Z.to_nat (size * whole c (a_off a) size (a_count a))) (avail c (a_off a) size (a_count a))))
+    /\ wst (g_w g') c fl op lg /\ g_s0 g' = Some (mkS MRead p) /\ g_ctx g' = g_ctx g.
+Proof. exact (at_read_nf cfg g c fl op lg p q size a). Qed.
+Print Assumptions C12_at_read.
+
+Theorem C12_read_after_write c off d size count : 0 <= off -> len d = size * count ->
+  avail (put c off d) off size count = d.
+Proof. exact (avail_put c off d size count). Qed.
+Print Assumptions C12_read_after_write.
+
+(* ---- configurations A and C produce the same file from blocks that are consecutive in rank order *)
+Theorem C12_configs_agree gA gC c flA opA lgA flC opC lgC m p s size args :
+  wst (g_w gA) c flA opA lgA -> g_s0 gA = Some (mkS m p) -> m <> MRead -> 0 <= p ->
+  wst (g_w gC) c flC opC lgC -> g_s0 gC = Some s -> at_end s c ->
+  args <> [] -> Forall (wf_arg size) args -> consec (len c) args ->
+  exists gA' gC' rsC,
+    g_at_all CfgA true gA 0 size args = (gA', map (fun a => mkR (SUCCESS CfgA) (a_count a) []) args)
+    /\ g_coll true gC size args = Some (gC', rsC)
+    /\ map r_ocount rsC = map a_count args
+    /\ content (g_w gA') = c ++ concat (map a_data args)
+    /\ content (g_w gC') = content (g_w gA').
+Proof. exact (configs_agree_nf gA gC c flA opA lgA flC opC lgC m p s size args). Qed.
+Print Assumptions C12_configs_agree.
+
+(* ---- known finding F-C12f.  Full statement (FALSE for sc_io_read_at / sc_io_write_at without MPI I/O):
+          forall ..., g_at cfg wr g q size a = (g', r) -> (r_cls r = SUCCESS cfg <-> w_fail (g_w g') = w_fail (g_w g)).
+        What holds: no failure gives SUCCESS; SUCCESS after a failure only together with a positive (short) count. *)
+Theorem C12_at_success_partial cfg wr g q size a g' r : plan_ok (w_plan (g_w g)) -> 0 <= a_count a -> 0 < size ->
+  g_at cfg wr g q size a = (g', r) ->
+  (w_fail (g_w g') = w_fail (g_w g) -> r_cls r = SUCCESS cfg)
+  /\ (r_cls r = SUCCESS cfg -> w_fail (g_w g') = w_fail (g_w g) \/ 0 < r_ocount r)
+  /\ w_ledger (g_w g') = w_ledger (g_w g) /\ w_open (g_w g') = w_open (g_w g).
+Proof. exact (at_success_char cfg wr g q size a g' r). Qed.
+Print Assumptions C12_at_success_partial.
+
+Theorem C12_at_success_iff_refuted :
+  exists g a g' r, plan_ok (w_plan (g_w g)) /\ 0 <= a_count a /\ g_at CfgA true g 0 1 a = (g', r)
+                   /\ r_cls r = SUCCESS CfgA /\ r_ocount r = 1 /\ a_count a = 4
+                   /\ w_fail (g_w g') = w_fail (g_w g) + 1.
+Proof. exact at_success_iff_refuted. Qed.
+Print Assumptions C12_at_success_iff_refuted.
+
+(* ---- known finding F-C12e.  C12_coll_write says where the fallback puts the blocks: at the end of rank 0's stream,
+        whatever the offsets.  Full statement (FALSE in configuration C): the file afterwards is `put` of every block at its
+        offset.  Witness: a 2-byte header by sc_io_write_at, then blocks at offsets 2 and 3: configuration A gives
+        header+blocks, configuration C writes block 0 over the header. *)
+Theorem C12_coll_offset_refuted :
+  (exists g outs, g_scen CfgC 2 (gstate0 Absent (fun _ _ _ => None)) ops_header = Some (g, outs)
+                  /\ w_fail (g_w g) = 0 /\ content (g_w g) = [20; 11; 30])
+  /\ (exists g outs, g_scen CfgA 2 (gstate0 Absent (fun _ _ _ => None)) ops_header = Some (g, outs)
+                     /\ w_fail (g_w g) = 0 /\ content (g_w g) = [10; 11; 20; 30]).
+Proof. exact coll_offset_refuted. Qed.
+Print Assumptions C12_coll_offset_refuted.
+
+(* ---- documented limitation of the append mode "ab": the offset of an explicit-offset write is ignored *)
+Theorem C12_append_ignores_offset cfg g c fl op lg p q size a :
+  wst (g_w g) c fl op lg -> g_s0 g = Some (mkS MAppend p) -> 0 <= p -> 0 <= a_off a -> 0 < a_count a ->
+  len (a_data a) = size * a_count a ->
+  exists g', g_at cfg true g q size a = (g', mkR (SUCCESS cfg) (a_count a) [])
+    /\ wst (g_w g') (c ++ a_data a) fl op lg.
+Proof. exact (at_write_append_ignores_offset cfg g c fl op lg p q size a). Qed.
+Print Assumptions C12_append_ignores_offset.
+
+(* ---- the hypotheses are satisfiable *)
+Example C12_ex_args : Forall (wf_arg 4) ex_args /\ consec 0 ex_args /\ ex_args <> [].
+Proof. exact ex_args_ok. Qed.
+Example C12_ex_plan : plan_ok plan_rank1 /\ plan_ok plan_partial.
+Proof. split; [exact plan_rank1_ok | exact plan_partial_ok]. Qed.
+Example C12_ex_fault_run :
+  exists g' rs, g_coll true (mkG (world0 (File []) plan_rank1) (Some (mkS MWrite 0)) true) 4 ex_args = Some (g', rs)
+                /\ map r_cls rs = [errclass CfgC e_EACCES; errclass CfgC e_EACCES; errclass CfgC e_EACCES]
+                /\ map r_ocount rs = [2; 0; 0] /\ w_fail (g_w g') = 1.
+Proof. exact ex_fault_run. Qed.
